@@ -76,12 +76,16 @@ impl MathOp {
             MathOp::Sub => x.wrapping_sub(y),
             MathOp::Xor => x ^ y,
             MathOp::Mul => x.wrapping_mul(y),
-            MathOp::Mulh | MathOp::Mulhsu => {
+            MathOp::Mulh => {
                 let (x, y) = (i64::from(x), i64::from(y));
                 ((x * y) >> 32) as i32
             }
+            MathOp::Mulhsu => {
+                let (x, y) = (i64::from(x), i64::from(y as u32));
+                ((x * y) >> 32) as i32
+            }
             MathOp::Mulhu => {
-                let (x, y) = (x as u64, y as u64);
+                let (x, y) = (u64::from(x as u32), u64::from(y as u32));
                 ((x * y) >> 32) as i32
             }
             // NOTE: The RISC-V spec doesn't trap for integer division by zero,
